@@ -117,6 +117,8 @@ def rand_partition(rng, m, kmax=4):
     """list of parts (lists of atoms), each connected"""
     atoms = list(m)
     k = rng.randint(1, min(kmax, len(atoms)))
+    if rng.random() < 0.12:
+        k = min(len(atoms), 9)          # many single-atom fragments (lone ring atoms, all bonds cut)
     seeds = rng.sample(atoms, k)
     owner = {s: i for i, s in enumerate(seeds)}
     frontier = list(seeds)
@@ -242,18 +244,24 @@ def render_fragment(rng, m, part, desc, ring_style='low', desc_pos='after'):
             if o == 1.5:
                 sym = ''
             dg += sym + mk_text(mk)
+        ch = tree_children[a]
+        late = desc_pos == 'after_branches' and len(ch) >= 2
         if desc_pos == 'before':
             # a %nn marker directly after ']' is fine; descriptor first, digits after
             t += dtext + dg
+        elif late:
+            t += dg
         else:
             t += dg + dtext
-        ch = tree_children[a]
         for k, c in enumerate(ch):
             o = sub.edges[a, c]['order']
             sym = ORDER_SYM[o]
             if k < len(ch) - 1:
                 t += '(' + sym + emit(c) + ')'
             else:
+                if late:
+                    # after the closed branches the descriptor belongs to the atom they hang on
+                    t += dtext
                 t += sym + emit(c)
         return t
     return emit(start, True), order_list
@@ -368,7 +376,7 @@ def cut_case(rng, nmax=9, kmax=4, kinds=None):
     orders = []
     for p in parts:
         style = rng.choice(['low', 'low', 'rand', 'pct'])
-        dpos = rng.choice(['after', 'after', 'before'])
+        dpos = rng.choice(['after', 'after', 'before', 'after_branches'])
         t, ol = render_fragment(rng, m, p, desc, ring_style=style, desc_pos=dpos)
         texts.append(t)
         orders.append(ol)
@@ -381,8 +389,35 @@ def cut_case(rng, nmax=9, kmax=4, kinds=None):
     frs = '{' + ','.join('#%s=%s' % (names[i], texts[i]) for i in rng.sample(range(len(parts)), len(parts))) + '}'
     single_text, single_order = render_fragment(rng, m, list(m), {}, ring_style='low')
     single = '{[#M]}.{#M=%s}' % single_text
+    # geometry of the cuts in the coordinates of the bonding step: coarse key = position in the base
+    # string; fine key = offset of the fragment copy + index of the atom in its fragment text
+    coarse_of_part = {p: k for k, p in enumerate(numbering)}
+    offset = {}
+    run = 0
+    for k, p in enumerate(numbering):
+        offset[p] = run
+        run += len(parts[p])
+    label_of = {}
+    for (a, b), lab in zip(cuts, labels):
+        label_of[(a, b)] = lab
+    cutinfo = {}
+    for (a, b) in cuts:
+        o = m.edges[a, b]['order']
+        oo = 1 if o == 1.5 else o
+        lab = label_of[(a, b)]
+        da = next(n for n, _ in desc[a] if n[1:] == lab)
+        db = next(n for n, _ in desc[b] if n[1:] == lab)
+        pa, pb = owner[a], owner[b]
+        ka, kb = coarse_of_part[pa], coarse_of_part[pb]
+        ua = offset[pa] + orders[pa].index(a)
+        ub = offset[pb] + orders[pb].index(b)
+        ea = (ua, da + str(oo))
+        eb = (ub, db + str(oo))
+        if ka > kb:
+            ka, kb, ea, eb = kb, ka, eb, ea
+        cutinfo.setdefault('%d-%d' % (ka, kb), []).append([ea[0], ea[1], eb[0], eb[1]])
     return {'s': base + '.' + frs, 'single': single, 'mol': mol_dump(m), 'ncuts': len(cuts), 'nparts': len(parts),
-            'kind': kind}
+            'kind': kind, 'cutinfo': cutinfo}
 
 
 def mol_dump(m):
